@@ -87,6 +87,20 @@ type World struct {
 
 var bubbleMu sync.Mutex
 
+// OnWedge, when set, is called from outside the bubble with a dump of all goroutines if
+// one execution has made no progress for WedgeAfter of REAL time (three orders of
+// magnitude above the cost of an execution; a generous horizon, not a timing oracle).
+var OnWedge func(stacks string)
+
+// OnDeadlock, when set, is called (outside the bubble) when synctest reports that every
+// goroutine of the bubble is durably blocked with no timer pending while the harness
+// still waits: the library has deadlocked. The hook should record the violation and
+// abort the shard (the blocked goroutines can never be cleaned up).
+var OnDeadlock func(report string)
+
+// WedgeAfter is the watchdog horizon.
+var WedgeAfter = 240 * time.Second
+
 // Run executes f inside a fresh bubble and drains the library's timer pool afterwards.
 // It returns a non-empty string if library goroutines were still alive when f (and the
 // automatic cleanup) finished — the caller decides what that means.
@@ -94,6 +108,38 @@ func Run(t *testing.T, f func(w *World)) (leak string) {
 	bubbleMu.Lock()
 	defer bubbleMu.Unlock()
 	var w *World
+	// Watchdog (real time, outside the bubble): an execution normally takes milliseconds.
+	// If the bubble makes no progress for WedgeAfter (a library goroutine spinning, or
+	// blocked in a way that is neither runnable nor durably blocked, so that virtual time
+	// cannot advance), the execution can never finish; OnWedge records it and ends the shard.
+	finished := make(chan struct{})
+	defer close(finished)
+	if onWedge := OnWedge; onWedge != nil {
+		go func() {
+			tm := time.NewTimer(WedgeAfter)
+			defer tm.Stop()
+			select {
+			case <-finished:
+			case <-tm.C:
+				buf := make([]byte, 1<<20)
+				n := runtime.Stack(buf, true)
+				onWedge(string(buf[:n]))
+			}
+		}()
+	}
+	// synctest panics "deadlock: all goroutines in bubble are blocked" when the harness waits
+	// (for quiescence or for virtual time) while no goroutine can ever run again and no timer
+	// is pending: a call the harness is waiting for can never return.
+	defer func() {
+		if r := recover(); r != nil {
+			if msg := fmt.Sprint(r); strings.Contains(msg, "deadlock") && OnDeadlock != nil {
+				buf := make([]byte, 1<<20)
+				n := runtime.Stack(buf, true)
+				OnDeadlock(msg + "\n" + string(buf[:n]))
+			}
+			panic(r)
+		}
+	}()
 	synctest.Test(t, func(t *testing.T) {
 		w = &World{T: t, Log: &Quiet{}}
 		w.Net = sim.New()
